@@ -21,15 +21,16 @@ SHARDS = {'quick': 4, 'thorough': 16}
 
 
 def strata(tier):
-    # RR with a warm start (bulk load() of an archive holding more than maxsize entries): only the 'exactly one leaves' clause applies
-    warm = G.strata_grid(algos=('rr',), maxsizes=(2, 3, 4), purges=(False,), families=('memarch', 'persist'),
+    # warm start (bulk load() of an archive holding more than maxsize entries): the bulk-loaded entries have no usage record, so the
+    # policy victim is undefined - but 'a hit never removes anything' still applies, and for RR 'exactly one leaves'
+    warm = G.strata_grid(algos=('rr', 'lru', 'mru', 'lfu'), maxsizes=(2, 3, 4), purges=(False,), families=('memarch', 'persist'),
                          backends=('cache_dict', 'cache_dir_dill', 'cache_file_pkl', 'cache_sql_mem'),
                          weights={'call': 12, 'load': 3, 'awrite': 3, 'sweep': 2, 'clear': 1, 'dump': 1},
                          max_ops=30, pool=(5, 10), prefill_pct=60)
     return [('warm/' + n, s) for n, s in warm] + G.strata_grid(
         algos=('lru', 'mru', 'lfu', 'rr'), maxsizes=(2, 1, 3, 4, 12), purges=(False,), families=('noarch', 'memarch', 'persist', 'direct'),
         backends=('none', 'plain', 'cache_dict', 'cache_null', 'direct_dict', 'cache_dir_dill', 'cache_file_pkl', 'cache_sql_mem', 'direct_file_pkl'),
-        weights={'call': 14, 'burst': 3, 'clear': 1, 'dump': 0, 'load': 0, 'dumpk': 0, 'loadk': 0, 'clearkeep': 0,
+        weights={'call': 14, 'burst': 3, 'clear': 1, 'dump': 0, 'load': 0, 'dumpk': 0, 'loadk': 0, 'clearkeep': 1,
                  'arch_off': 0, 'arch_on': 0},
         max_ops=40 if tier == 'quick' else 80, pool=(3, 8), raising_pct=15)
 
@@ -43,6 +44,7 @@ def check_trace(case, tr):
     ms = H.effective_maxsize(case)
     algo = H.effective_algo(case)
     last_use, count, inserted = {}, {}, {}
+    warm = any(o[0] in ('load', 'awrite', 'loadk') for o in case['ops'])      # usage record incomplete: only history-free clauses apply
     run_no_evict = 0
     compaction_possible = False
     flags = {'victim_not_fifo': 0, 'overflow_after_compaction': 0, 'overflow': 0, 'hit': 0, 'lfu_multi': 0}
@@ -84,6 +86,14 @@ def check_trace(case, tr):
             count[key] = count.get(key, 0) + 1
             run_no_evict += 1
             events.append('h')
+            if warm and len(pre) > ms:
+                flags['hit_while_overfull'] = flags.get('hit_while_overfull', 0) + 1
+        elif warm and algo != 'rr':
+            # a miss on a warm-started lru/mru/lfu cache: which entry leaves is not defined by the statement; nothing is asserted
+            events.append('w')
+            for k in removed:
+                last_use.pop(k, None); count.pop(k, None); inserted.pop(k, None)
+            continue
         else:
             if len(pre) + 1 <= ms:
                 if removed:
@@ -179,7 +189,7 @@ def run_case(case):
     return discrs, nt, sorted(set(classes))
 
 
-REQUIRED_CLASSES = ['victim_not_fifo', 'lru_overflow_after_compaction', 'lfu_multi', 'algo:rr', 'algo:mru', 'algo:lfu', 'algo:lru', 'raising_call', 'rr_overflow_while_overfull']
+REQUIRED_CLASSES = ['victim_not_fifo', 'lru_overflow_after_compaction', 'lfu_multi', 'algo:rr', 'algo:mru', 'algo:lfu', 'algo:lru', 'raising_call', 'rr_overflow_while_overfull', 'hit_while_overfull']
 TRIGGERS = {}
 
 
